@@ -558,6 +558,49 @@ fn quantile_sweep(run: &Arc<Run>, thorough: bool) {
             }
         }
     }
+    // a NaN at every position of samples that are otherwise already ordered (ascending, descending,
+    // constant) or not: panicking on the incomparable element is documented, an error is fine, an Ok
+    // interval with a NaN bound is not
+    for n in 4usize..=24 {
+        for shape in 0..4 {
+            let base: Vec<f64> = (0..n)
+                .map(|i| match shape {
+                    0 => i as f64 + 1.0,
+                    1 => (n - i) as f64,
+                    2 => 2.5,
+                    _ => ((i * 7) % 11) as f64,
+                })
+                .collect();
+            for pos in 0..n {
+                let mut d = base.clone();
+                d[pos] = f64::NAN;
+                for kind in KINDS {
+                    for (level, q) in [(0.95, 0.5), (0.5, 0.25), (0.9, 0.75)] {
+                        let c = conf(kind, level);
+                        for (entry, out) in [
+                            ("quantile::ci", caught(|| quantile::ci(c, &d, q))),
+                            ("quantile::ci_max_size<64>", caught(|| quantile::ci_max_size::<f64, _, 64>(c, &d, q))),
+                        ] {
+                            l.eval();
+                            l.count("class:NaN-at-a-position-of-quantile-data");
+                            let shape_name = ["ascending", "descending", "constant", "unordered"][shape];
+                            if let Ok(Ok(i)) = out {
+                                let o = Obs::of64(&i);
+                                if o.has_nan() {
+                                    l.violation(
+                                        format!("{}|NaN-element|Ok-with-NaN-bound|{}", entry, shape_name),
+                                        format!("{} over data with a NaN returns an interval with a NaN bound", entry),
+                                        json!({"entry": entry, "class": "NaN element"}),
+                                        json!({"n": n, "nan_position": pos, "data_shape": shape_name, "q": q, "kind": kind.name(), "level": level, "observed": o.json()}),
+                                    );
+                                }
+                            }
+                        }
+                    }
+                }
+            }
+        }
+    }
     let big: Vec<i32> = (0..20).collect();
     l.eval();
     match caught(|| quantile::ci_max_size::<i32, _, 8>(conf(Kind::Two, 0.9), &big, 0.5)) {
@@ -618,6 +661,23 @@ fn documented_panics(run: &Arc<Run>) {
             // relative_to: zero reference / same direction documented
             let zero_ref = iv(kb, 0.0, 4.0);
             l.eval();
+            // a reference that is tiny but not zero is not a zero reference: no panic
+            for tiny in [1e-300f64, 2f64.powi(-60), 1e-17, 5e-324, -1e-200] {
+                let tr = match kb {
+                    0 => Interval::TwoSided(tiny.min(tiny * 2.0), tiny.max(tiny * 2.0)),
+                    1 => Interval::UpperOneSided(tiny),
+                    _ => Interval::LowerOneSided(tiny),
+                };
+                let same_dir = (a.is_upper() && tr.is_upper()) || (a.is_lower() && tr.is_lower());
+                if same_dir {
+                    continue;
+                }
+                l.eval();
+                l.count("relative_to a tiny non-zero reference");
+                if let Err(p) = caught(|| a.relative_to(&tr)) {
+                    l.violation(format!("Interval::relative_to|tiny-nonzero-reference|kinds({},{})|panic@{}", ka, kb, p.location), format!("relative_to panics for a reference that is tiny but not zero: {}", p.message), json!({"entry": "relative_to", "ka": ka, "kb": kb}), json!({"reference": format!("{:?}", tr)}));
+                }
+            }
             if caught(|| a.relative_to(&zero_ref)).is_err() {
                 l.count("documented panic: relative_to a zero reference");
             } else {
@@ -686,6 +746,7 @@ pub fn run(run: &Arc<Run>) {
         "class:mismatched-lengths",
         "class:k>n",
         "class:huge-counts-k>n",
+        "class:NaN-at-a-position-of-quantile-data",
         "class:k-in-{0,1}",
         "class:n-k-in-{0,1}",
         "class:n=0",
